@@ -4,7 +4,9 @@
 (* and of the real response-mode function.                                  *)
 (*                                                                         *)
 (* RegistryCase: concurrent prompting.Message / prompting.Prompt calls      *)
-(* against one registered, instrumented prompter while it is unregistered.  *)
+(* against 1-3 registered identifiers, each with an instrumented prompter,  *)
+(* while they are unregistered (and possibly registered again under the     *)
+(* same identifier with a new prompter).                                    *)
 (* The prompter draws a ticket from one atomic counter when it is entered   *)
 (* (tin) and when it is left (tout), and reports how many invocations were  *)
 (* in flight at entry (conc); the driver draws a ticket from the same       *)
@@ -21,25 +23,30 @@ VARIABLES l, fails, ninv, nafter, necho, done
 tvars == <<l, fails, ninv, nafter, necho, done>>
 
 SetMax(S) == CHOOSE x \in S : \A y \in S : x >= y
+RECURSIVE SumLen(_, _)
+SumLen(gs, n) == IF n = 0 THEN 0 ELSE Len(gs[n].invs) + SumLen(gs, n - 1)
 
 \* invocations in progress when invocation k was entered (itself included)
 Overlap(I, k) == 1 + Cardinality({j \in DOMAIN I : j # k /\ I[j].tin < I[k].tin /\ I[k].tin < I[j].tout})
 MaxConc(I) == SetMax({Overlap(I, k) : k \in DOMAIN I} \cup {I[k].conc : k \in DOMAIN I} \cup {0})
 UsedAfter(I, u) == Cardinality({k \in DOMAIN I : I[k].tout > u})
 
+\* r.gens: one entry per registration (identifier p, generation gen: the same identifier registered
+\* again after its unregistration is a new registration with a new prompter)
 RegistryFails(i, r) ==
-       Chk(Want, i, "C32_Exclusive", C32_Exclusive(MaxConc(r.invs)))
+       Chk(Want, i, "C32_Exclusive", \A g \in DOMAIN r.gens : C32_Exclusive(MaxConc(r.gens[g].invs)))
     \o Chk(Want, i, "C32_NoUseAfterUnregister",
-           C32_NoUseAfterUnregister(r.unreg.ticket >= 0, UsedAfter(r.invs, r.unreg.ticket)))
+           \A g \in DOMAIN r.gens :
+              C32_NoUseAfterUnregister(r.gens[g].unreg.ticket >= 0, UsedAfter(r.gens[g].invs, r.gens[g].unreg.ticket)))
     \o Chk(Want, i, "C32_NoPanic", C32_NoPanic(Len(r.panics)))
-    \* registration, every Message/Prompt and the unregistration came back (10 s watchdog in the driver)
+    \* registration, every Message/Prompt and the unregistrations came back (10 s watchdog in the driver)
     \o Chk(Want, i, "C32_CallsReturn", ~r.hung \/ r.elapsed < 5000000)
 
 ModeFails(i, r) == Chk(Want, i, "C32_EchoIffConfirmation", C32_EchoIffConfirmation(r.prompt, r.mode))
 
 RecFails(i, r) ==
   IF ~Has(r, "ev") THEN <<Fail(i, "C32_TraceAccepted")>>
-  ELSE IF r.ev = "RegistryCase" /\ Has(r, "invs") /\ Has(r, "unreg") /\ Has(r, "panics") /\ Has(r, "hung") /\ Has(r, "elapsed") THEN RegistryFails(i, r)
+  ELSE IF r.ev = "RegistryCase" /\ Has(r, "gens") /\ Has(r, "panics") /\ Has(r, "hung") /\ Has(r, "elapsed") THEN RegistryFails(i, r)
   ELSE IF r.ev = "Mode" /\ Has(r, "prompt") /\ Has(r, "mode") THEN ModeFails(i, r)
   ELSE <<Fail(i, "C32_TraceAccepted")>>
 
@@ -47,12 +54,13 @@ TInit == l = 1 /\ fails = <<>> /\ ninv = 0 /\ nafter = 0 /\ necho = 0 /\ done = 
 Step == /\ l <= NRec
         /\ LET r == Trace[l] IN
            /\ fails' = Cap(fails \o RecFails(l, r))
-           /\ ninv' = ninv + (IF Has(r, "invs") THEN Len(r.invs) ELSE 0)
-           /\ nafter' = nafter + (IF Has(r, "unreg") /\ r.unreg.ticket >= 0 THEN 1 ELSE 0)
+           /\ ninv' = ninv + (IF Has(r, "gens") THEN SumLen(r.gens, Len(r.gens)) ELSE 0)
+           /\ nafter' = nafter + (IF Has(r, "gens")
+                                  THEN Cardinality({g \in DOMAIN r.gens : r.gens[g].unreg.ticket >= 0}) ELSE 0)
            /\ necho' = necho + (IF Has(r, "mode") /\ r.mode = "echo" THEN 1 ELSE 0)
         /\ l' = l + 1 /\ UNCHANGED done
 Finish == /\ l = NRec + 1 /\ ~done
-          /\ WriteResult(l - 1, fails, [stat_invocations |-> ninv, stat_unregistered_cases |-> nafter, stat_echo |-> necho])
+          /\ WriteResult(l - 1, fails, [stat_invocations |-> ninv, stat_unregistrations_returned |-> nafter, stat_echo |-> necho])
           /\ done' = TRUE /\ UNCHANGED <<l, fails, ninv, nafter, necho>>
 TSpec == TInit /\ [][Step \/ Finish]_tvars
 ====
